@@ -439,11 +439,22 @@ func (parser *Parser) findMissingIncludes(seenFiles map[string]*SourceFile,
 			break
 		}
 	}
-	types := make([]Type, 0, len(neededTypes))
-	for _, t := range neededTypes {
-		types = append(types, t)
+	// Iterate in sorted order, so that the result is repeatable.
+	typeNames := make([]string, 0, len(neededTypes))
+	for name := range neededTypes {
+		typeNames = append(typeNames, name)
 	}
+	sort.Strings(typeNames)
+	types := make([]Type, 0, len(neededTypes))
+	for _, name := range typeNames {
+		types = append(types, neededTypes[name])
+	}
+	missing := make([]string, 0, len(neededCallables))
 	for c := range neededCallables {
+		missing = append(missing, c)
+	}
+	sort.Strings(missing)
+	for _, c := range missing {
 		errs = append(errs, fmt.Errorf(
 			"Could not find a definition for a stage or pipeline %s",
 			c))
